@@ -10,7 +10,7 @@
    EVERY byte list, every resume state and every variant record — no well-formedness of
    the input is assumed unless stated. *)
 From MptV Require Import Base.Mem Cobs.CobsModel Cobs.DecModel Cobs.EncProofs Cobs.EncTheorems Cobs.DecProofs Cobs.DecCall
-  Cobs.DecComplete Cobs.DecHistory Cobs.DecLive Cobs.TextModel Cobs.TextHistory.
+  Cobs.DecComplete Cobs.DecHistory Cobs.DecLive Cobs.DecStream Cobs.TextModel Cobs.TextHistory.
 
 (* SAFETY, one call, arbitrary bytes and (well-formed) resume state: the region keeps its
    size; nothing before the state's decoded data is written; if anything was written, the
@@ -198,6 +198,27 @@ Example C03_example_live :
   r = DErr MissingBuffer /\ dcurr st' = 2 /\ dcode st' = 225.
 Proof. split; [apply cinv_init; cbn; lia|]. vm_compute. auto. Qed.
 
+(* NO FALSE ERROR on a prefix of a well-formed stream ([wfs]: complete well-formed frames, the last
+   one cut anywhere -- the form the output of the encoders has at every moment): a call in any
+   state and with any gap delivers a message, asks for more input (having consumed everything) or
+   reports MissingBuffer, and the state is of the same kind again; BadValue / MissingData /
+   BadEncoding are never reported *)
+Theorem C03_call_no_error_on_stream_prefix :
+  forall v F st buf frags res, cinv v F st buf -> sstream v st buf ->
+    let '(r, st', buf') := dec_call_res v st buf frags res false in
+    sstream v st' buf' /\ (r = DMsg \/ r = DErr MissingBuffer \/ r = DMore).
+Proof. exact dec_call_stream. Qed.
+
+Theorem C03_stream_of_accepted_frames_is_wellformed :
+  forall v ms C, frames_of v ms C -> forall R, wfs0 v (C ++ R) = wfs0 v R.
+Proof. exact wfs0_frames. Qed.
+
+(* non-vacuity: a frame and a half *)
+Example C03_example_stream_prefix :
+  let buf := [3;65;66;0;4;67]%N in
+  cinv v_cobs [] (dinit 0) buf /\ sstream v_cobs (dinit 0) buf.
+Proof. split; [apply cinv_init; cbn; lia|]. split; [vm_compute; reflexivity|]. intros H. cbn in H. contradiction. Qed.
+
 Example C03_hon_start : forall v c, 1 <= c -> hon v [nb c] [] c 0.
 Proof. exact hon_start. Qed.
 
@@ -248,3 +269,5 @@ Print Assumptions C03_command_history_delivers.
 Print Assumptions C03_spaced_reader_delivers_every_frame.
 Print Assumptions C03_accepted_frame_is_live.
 Print Assumptions C03_call_never_refuses_complete_frame.
+Print Assumptions C03_call_no_error_on_stream_prefix.
+Print Assumptions C03_stream_of_accepted_frames_is_wellformed.
